@@ -186,7 +186,7 @@ def run(tier, seed, replay=None):
             single, c2 = run_cases(impl, [batch[ci]])
             small = ddmin(batch[ci], lambda c: run_cases(impl, [c])[1] is not None) if c2 else batch[ci]
             p = rep.replay_file("crash_%d.case" % (b0 + ci), "# implementation crashed (rc=%s)\n# %s\n" % (rc, errtxt.replace("\n", "\n# ")) + "\n".join(small) + "\n")
-            rep.violation(p, "implementation crashed / sanitizer report (rc=%s) on a precondition-respecting message program" % rc)
+            rep.violation(p, "implementation crashed / sanitizer report (rc=%s) on a precondition-respecting message program: %s" % (rc, san_summary(errtxt)))
             continue
         sv = spec_check(model, batch, iout)
         for ci, case in enumerate(batch):
